@@ -731,3 +731,17 @@ Lemma private_example :
   c_wire st = [(0%nat, (0, AddROSpec 7)); (1%nat, (0, AddROSpec 9))] /\
   l_results (c_lanes st 0) = [false] /\ l_results (c_lanes st 1) = [false].
 Proof. vm_compute. repeat split; reflexivity. Qed.
+
+(* ------------------------------------------------------------------ the read timeout as applied to the connection *)
+Lemma writes_keep_read_deadline : forall writes d,
+  dl_read (fold_left (on_write WriteOnly) writes d) = dl_read d.
+Proof. induction writes as [|t ws IH]; intro d; [reflexivity|]. cbn [fold_left]. rewrite IH. reflexivity. Qed.
+
+Lemma silent_reader_bounded : forall d t0 writes,
+  dl_read (silent_reader WriteOnly d t0 writes) = t0 + 2 * keep_alive_interval_ms.
+Proof. intros. unfold silent_reader. rewrite writes_keep_read_deadline. reflexivity. Qed.
+
+Lemma silent_reader_both_refuted :
+  dl_read (silent_reader Both (mkDL 0 0) 0 [50000; 100000; 150000]) = 210000 /\
+  2 * keep_alive_interval_ms = 60000.
+Proof. vm_compute. split; reflexivity. Qed.
